@@ -27,6 +27,13 @@ FLAT_SCRIPTS = [
 ]
 
 
+HOT_SCRIPTS = [
+    ["(a (n 1)) (a c)", "closed closed"],
+    ["(a (n 1)) (a (e 3))", "closed", "closed"],
+    ["(a (n 1)) (a (n 2))", "u closed", "closed closed"],
+    ["(a c)", "u", "closed closed"],
+]
+
 FIN_SCRIPTS = [
     ["(a (n 1)) (a c)", "u"],
     ["(a (e 3))", "u"],
@@ -35,7 +42,7 @@ FIN_SCRIPTS = [
 ]
 
 
-def cases(tier, rng, prefix="j", kinds=("op2", "flat", "fin"), only_unsub=False):
+def cases(tier, rng, prefix="j", kinds=("op2", "flat", "fin", "hot"), only_unsub=False):
     cs = []
     n = 0
     def add(pipe, threads, klass):
@@ -77,6 +84,9 @@ def cases(tier, rng, prefix="j", kinds=("op2", "flat", "fin"), only_unsub=False)
     if "fin" in kinds:
         for th in FIN_SCRIPTS:
             add("(fin)", th, "fin")
+    if "hot" in kinds and not only_unsub:
+        for th in HOT_SCRIPTS:
+            add("(hot)", th, "hot")
     return cs
 
 
@@ -86,6 +96,7 @@ RULE = ("real threads on pipelines of thread-safe operators under explicit sched
         "and an unsubscribing thread, an unsubscribing thread included throughout; every "
         "schedule with <= 2 (thorough 3) context switches plus random ones; judged for deadlock, panic, a call that does not return, overlapping "
         "callbacks, the notification grammar, silence after unsubscribe() returned, every inner observable's items at most once and in order, "
-        "the finalize callback exactly once and not before its trigger; the two-input operators are tied to the sequential model: the "
+        "the finalize callback exactly once and not before its trigger, is_closed() of a subject's subscription asked by other threads while "
+        "it is being terminated or unsubscribed (true means nothing is delivered afterwards); the two-input operators are tied to the sequential model: the "
         "delivered sequence must be what Ops2.run_op2 gives for SOME merge of the threads' operations that keeps each thread's order (a "
         "difference is reported as a broken correspondence, not as a failing input)" % (len(OP2_SCRIPTS), len(FLAT_SCRIPTS)))
